@@ -1300,6 +1300,54 @@ func c08InsertSweep(n int, immediate bool, f func(sec *ref.S35Section)) {
 func c08CheckLong(c c08LongCase) engine.Result {
 	var res engine.Result
 	switch c.Kind {
+	case "pointer-filler":
+		// pointer_field c.From with what a pointer_field legally skips: 0xFF stuffing, zeros, or the tail of a
+		// previous section (bytes that read like a small / a large section_length when taken for a header)
+		fillers := [][]byte{{0xFF}, {0x00}, {0xB0, 0x10, 0x00}, {0x40, 0x1F, 0xFC}, {0xFC, 0x30, 0x05}, {0x0F, 0xFF}}
+		bases := []ref.S35Section{}
+		for _, t := range []int{40, 187, 300} {
+			if sec, ok := c08SectionOfLength(t); ok {
+				bases = append(bases, sec)
+			}
+		}
+		ins := ref.S35Canonical()
+		ins.CmdType = ref.S35CmdInsert
+		ins.Insert = ref.S35Insert{EventID: 9, Out: true, Program: true, Time: ref.S35Time{Specified: true, PTS: 0x1FFFFFFFF}, HasDuration: true, Duration: 90000, UniqueProgramID: 1, AvailNum: 1, AvailsExpected: 1}
+		bases = append(bases, ins)
+		for bi := range bases {
+			for fi, f := range fillers {
+				sec := bases[bi]
+				sec.Pointer = c.From
+				in := ref.S35Bytes(&sec)
+				for i := 0; i < sec.Pointer; i++ {
+					in[1+i] = f[i%len(f)]
+				}
+				orig := append([]byte(nil), in...)
+				res.Nontrivial++
+				res.Evals++
+				var obj scte35.SCTE35
+				var err error
+				if engine.Guard(&res, "NewSCTE35", func() { obj, err = scte35.NewSCTE35(in) }) {
+					continue
+				}
+				cmp := &c08Cmp{res: &res, op: "NewSCTE35"}
+				cmp.what = fmt.Sprintf("pointer_field %d over filler #%d (% x...), %s", sec.Pointer, fi, f, c08Describe(&sec))
+				if err != nil || obj == nil {
+					cmp.failf("pointer-filler", "well-formed section rejected", "error %v", err)
+					continue
+				}
+				c08Compare(cmp, obj, &sec, false)
+				if d := obj.Data(); !bytes.Equal(d, orig[1+sec.Pointer:]) {
+					cmp.failf("pointer-filler", "getter Data", "Data() has %d bytes, the section %d", len(d), len(orig)-1-sec.Pointer)
+				}
+				if !bytes.Equal(in, orig) {
+					cmp.failf("pointer-filler", "input modified", "the input bytes were modified")
+				}
+				if len(res.Fail) > 8 {
+					return res
+				}
+			}
+		}
 	case "section-length":
 		for t := c.From; t <= c.To; t++ {
 			sec, ok := c08SectionOfLength(t)
@@ -1531,6 +1579,16 @@ func init() {
 					}
 				},
 				Check: witnessEnum(c08CheckLong, witnessSCTE), Batch: 1,
+			},
+			&engine.Enum[c08LongCase]{
+				Name: "pointer-filler",
+				Rule: "EVERY pointer_field 0..255 x 6 kinds of skipped bytes (0xFF stuffing, zeros, and four tails of a previous section that read like small or large section lengths when mistaken for a header) x 4 sections (time_signal sections of 40, 187 and 300 bytes, a splice_insert): decode and compare every getter as in decode-fields, Data() == the section, input unmodified",
+				Gen: func(r *engine.Run, emit func(c08LongCase)) {
+					for p := 0; p <= 255; p++ {
+						emit(c08LongCase{Kind: "pointer-filler", From: p})
+					}
+				},
+				Check: c08CheckLong, Batch: 4,
 			},
 			&engine.Enum[c08LongCase]{
 				Name: "accumulated-delivery",
